@@ -26,12 +26,18 @@ def base_model():
                                    mkfield('uu', R(None, 'Uu')), mkfield('cu', R(None, 'Cu')), mkfield('child', N(R(None, 'Child'))),
                                    mkfield('ai', N(R(None, 'Ai'))),
                                    mkfield('oc', N(R(None, 'OuChild'))), mkfield('og', N(L(R(None, 'OuGrand'), None, None))),
-                                   mkfield('oco', N(R(None, 'CuOpen')))]),
+                                   mkfield('oco', N(R(None, 'CuOpen'))),
+                                   # a subtype tree behind every container and behind an alias; a struct without any field
+                                   mkfield('lroot', N(L(R(None, 'Root'), None, None))), mkfield('mroot', N(M(R(None, 'Root')))), mkfield('aroot', N(R(None, 'ARoot'))),
+                                   mkfield('nothing', N(R(None, 'Nothing'))), mkfield('lnothing', N(L(R(None, 'Nothing'), None, None)))]),
+        Alias('ARoot', R(None, 'Root'), None, ()),
+        mkstruct('Nothing', doc='no fields at all'),
         mkunion('Ou', tags=[mktag('v'), mktag('w'), mktag('t', I32), mktag('s', R(None, 'Inner')), mktag('ns', N(R(None, 'Inner'))),
                             mktag('r', R(None, 'Root'))]),
         mkunion('OuChild', parent=R(None, 'Ou'), tags=[mktag('cx'), mktag('cy', I32)]),
         mkunion('OuGrand', parent=R(None, 'OuChild'), tags=[mktag('gx')]),
-        mkunion('Uu', tags=[mktag('x'), mktag('o', R(None, 'Ou')), mktag('no', N(R(None, 'Ou'))), mktag('lo', L(R(None, 'Ou'), None, None))]),
+        mkunion('Uu', tags=[mktag('x'), mktag('o', R(None, 'Ou')), mktag('no', N(R(None, 'Ou'))), mktag('lo', L(R(None, 'Ou'), None, None)),
+                            mktag('nr', N(R(None, 'Root'))), mktag('en', R(None, 'Nothing')), mktag('nen', N(R(None, 'Nothing')))]),
         mkunion('Cu', closed=True, tags=[mktag('c1'), mktag('c2', R(None, 'Inner'))]),
         mkunion('CuOpen', parent=R(None, 'Cu'), tags=[mktag('co1'), mktag('co2', I32)]),     # an open union that extends a closed one
         mkroute('rr', 1, R(None, 'Inner'), R(None, 'Ou'), VOID),
